@@ -280,7 +280,19 @@ def as_container(loads, kind):
     return loads
 
 
-def run_two_pass(loads, law, second=True, peek="none"):
+def checkpoint(det, how):
+    """Continue on a copy of the detector (checkpoint / restore; the assessment code itself deep-copies
+    the detector between the passes)."""
+    import copy as _copy
+    import pickle as _pickle
+    if how == "deepcopy":
+        return _copy.deepcopy(det)
+    if how == "pickle":
+        return _pickle.loads(_pickle.dumps(det))
+    return det
+
+
+def run_two_pass(loads, law, second=True, peek="none", ckpt="none"):
     """loads: 1-D float array (single point) or Series (load_step, node_id).
     peek: the user looks at recorder.collective before the first pass and / or between the passes."""
     rec = FKMNonlinearRecorder()
@@ -292,6 +304,9 @@ def run_two_pass(loads, law, second=True, peek="none"):
         first_rows = None
         if peek in ("between", "both"):
             rec.collective
+        if ckpt != "none":
+            det = checkpoint(det, ckpt)
+            rec = det.recorder
         if second:
             det.process_hcm_second(loads)
     except Exception as e:    # noqa
@@ -349,7 +364,8 @@ def generate(prop, rng, tier):
               "mat": rng.randrange(len(MATERIALS)), "bins": rng.choice([10, 20, 50]),
               "twin": None,
               "container": rng.choice(["f64", "f64", "f64", "list", "i64", "i32", "i16", "series", "f32int", "negzero"]),
-              "peek": rng.choice(["none", "none", "before", "between", "both"])}
+              "peek": rng.choice(["none", "none", "before", "between", "both"]),
+              "ckpt": rng.choice(["none", "none", "none", "deepcopy", "pickle"])}
         if rng.random() < 0.3:
             # J3 twin: interior-only refinement, compared per pass with the base
             tr["twin"] = refine(rng, lv, junction=False, density=rng.choice([0.3, 0.7]))
@@ -403,7 +419,8 @@ def generate_c05(rng, tier):
     tr = {"world": NAME, "levels": lv, "step": step, "law": rng.choice(["EN", "EN", "SB"]),
           "mat": rng.randrange(len(MATERIALS)), "bins": rng.choice([20, 50, 100, 200]),
           "mode": rng.choice(["K1", "K1", "K2", "K2", "K3"]),
-          "peek": rng.choice(["none", "none", "between", "both"])}
+          "peek": rng.choice(["none", "none", "between", "both"]),
+          "ckpt": rng.choice(["none", "none", "deepcopy", "pickle"])}
     edge = rng.random() < 0.4
     tr["max_factor"] = rng.choice([1.0, 1.0, 1.25, 2.0]) if edge else rng.choice([1.0137, 1.0731, 1.3391, 1.9173])
     if rng.random() < 0.22:
@@ -457,7 +474,14 @@ def generate_c05_chunked(rng, tr):
     m = rng.randint(1, 4)
     ids = rng.sample([0, 1, 2, 3, 5, 7, 11, 12, 13, 40], m)
     ratios = [1.0] + [rng.choice([0.5, 2.0, 0.25, 4.0, 3.0, 1.5]) for _ in range(m - 1)]
+    if rng.random() < 0.012:
+        # a long history streamed sample by sample (hundreds of process() calls)
+        lv = gen_levels(rng, rng.choice([280, 330]), 9)
+        n = len(lv)
+        cuts = set(range(1, n))
+        ids, ratios = ids[:2], ratios[:2]
     tr.update({"mode": "K4", "levels": lv, "cuts": sorted(cuts), "nodes": [[i, r] for i, r in zip(ids, ratios)],
+               "ckpt": rng.choice(["none", "none", "deepcopy", "pickle"]), "ckpt_at": rng.randrange(64),
                "final_flush": rng.random() < 0.6, "restart_load_step": rng.random() < 0.3, "max_factor": 1.0731,
                "shared_max": rng.random() < 0.3})
     return tr
@@ -526,7 +550,10 @@ def exec_c04(trace, out, log):
                 return
     else:
         law = get_law(trace["law"], int(trace["mat"]), big * 1.0731, int(trace["bins"]))
-        det, rec, _ = run_two_pass(as_container(loads, trace.get("container", "f64")), law, peek=trace.get("peek", "none"))
+        det, rec, _ = run_two_pass(as_container(loads, trace.get("container", "f64")), law, peek=trace.get("peek", "none"),
+                                   ckpt=trace.get("ckpt", "none"))
+        if trace.get("ckpt", "none") != "none":
+            out.count("history:checkpoint_" + trace["ckpt"])
         if trace.get("peek", "none") != "none":
             out.count("history:collective_read_early")
         rows = collective_rows(rec)
@@ -709,7 +736,9 @@ def exec_c05(trace, out, log):
     ctx = {"levels": lv, "step": step, "law": kind, "mat": mat, "bins": bins, "max_factor": mf}
     if mode in ("K1", "K3"):
         law = get_law(kind, mat, big * mf, bins)
-        det, rec, first_rows = run_two_pass(loads, law, peek=trace.get("peek", "none"))
+        det, rec, first_rows = run_two_pass(loads, law, peek=trace.get("peek", "none"), ckpt=trace.get("ckpt", "none"))
+        if trace.get("ckpt", "none") != "none":
+            out.count("history:checkpoint_" + trace["ckpt"])
         rows = collective_rows(rec)
         out.steps += 2
         ref = reference_run(lv, step, ScalarLaw(law))
@@ -815,11 +844,14 @@ def exec_c05(trace, out, log):
         out.sigs.append("c05|K2|%s|n%d|%s|rows%d" % (kind, m, "shared" if shared else "pernode", min(len(rows_b) // m, 12)))
 
 
-def _feed_chunks(law, chunks, final_flush):
+def _feed_chunks(law, chunks, final_flush, ckpt="none", ckpt_at=-1):
     rec = FKMNonlinearRecorder()
     try:
         det = FKMNonlinearDetector(recorder=rec, notch_approximation_law=law)
         for q, ch in enumerate(chunks):
+            if q == ckpt_at and ckpt != "none":
+                det = checkpoint(det, ckpt)
+                rec = det.recorder
             det.process(ch, flush=(final_flush and q == len(chunks) - 1))
     except Exception as e:    # noqa
         raise RealCodeError("process(chunk)", e)
@@ -851,7 +883,10 @@ def exec_c05_chunked(trace, out, log):
         steps_ = range(0, b - a) if restart else range(a, b)
         idx = pd.MultiIndex.from_product([steps_, [i for i, _ in nodes]], names=["load_step", "node_id"])
         chunks_b.append(pd.Series([lv[k] * step * r for k in range(a, b) for _, r in nodes], index=idx, dtype=np.float64))
-    detb, recb = _feed_chunks(law_b, chunks_b, flush)
+    ck, ck_at = trace.get("ckpt", "none"), int(trace.get("ckpt_at", -1)) % max(1, len(chunks_b))
+    if ck != "none":
+        out.count("history:checkpoint_" + ck)
+    detb, recb = _feed_chunks(law_b, chunks_b, flush, ck, ck_at)
     rows_b = collective_rows(recb)
     out.steps += len(chunks_b)
     out.count("op:process_chunk", len(chunks_b))
@@ -876,7 +911,7 @@ def exec_c05_chunked(trace, out, log):
             if law_s is None:
                 law_s, tol = get_law(kind, mat, big * mf * ratio, bins), 2e-3
         chunks_s = [np.array([lv[k] * step * ratio for k in range(a, b)], dtype=np.float64) for a, b in zip(bounds[:-1], bounds[1:])]
-        dets, recs = _feed_chunks(law_s, chunks_s, flush)
+        dets, recs = _feed_chunks(law_s, chunks_s, flush, ck, ck_at)
         rows_s = collective_rows(recs)
         out.steps += len(chunks_s)
         mine = [r for r in rows_b if r["_idx"][1] == j]
@@ -958,7 +993,7 @@ def shrink(prop, trace):
             t = copy.deepcopy(trace)
             t["nodes"] = cand
             yield t
-    for key, simple in (("law", "EN"), ("mat", 0), ("step", 100.0), ("bins", 20), ("peek", "none"), ("container", "f64")):
+    for key, simple in (("law", "EN"), ("mat", 0), ("step", 100.0), ("bins", 20), ("peek", "none"), ("container", "f64"), ("ckpt", "none")):
         if trace.get(key) != simple:
             t = copy.deepcopy(trace)
             t[key] = simple
